@@ -120,6 +120,11 @@ pub struct CLifetime {
     /// pending on the unchanged tree, which no property speaks about: not used here.)
     #[serde(default)]
     pub refused_after: String,
+    /// the `fake!` expression of this lifetime was evaluated ahead of time: during the previous
+    /// lifetime, after its installation and before its calls (a fixture that prepares its fakes
+    /// early); it is only installed when this lifetime begins
+    #[serde(default)]
+    pub prepared_ahead: bool,
 }
 
 #[derive(Serialize, Deserialize, Clone, Debug, PartialEq)]
@@ -204,7 +209,11 @@ pub fn generate(profile: &str, seed: u64, index: u64) -> CountScenario {
         if !refused_after.is_empty() {
             classes.push(format!("refused-after-{refused_after}"));
         }
-        lifetimes.push(CLifetime { n, calls, exit_panic, second, prelude, refused_after });
+        let prepared_ahead = !lifetimes.is_empty() && rng.chance(1, 4);
+        if prepared_ahead {
+            classes.push("prepared-ahead".into());
+        }
+        lifetimes.push(CLifetime { n, calls, exit_panic, second, prelude, refused_after, prepared_ahead });
     }
     let in_unwind = rng.chance(1, 6);
     if in_unwind {
@@ -265,6 +274,7 @@ pub fn execute(sc: &CountScenario, sh: &Shared) -> Value {
     let mut exit_not_judged = 0u64;
     let mut preludes = 0u64;
     let mut refusals = 0u64;
+    let mut prepared_total = 0u64;
     struct InDrop<F: FnMut()>(Option<F>);
     impl<F: FnMut()> Drop for InDrop<F> {
         fn drop(&mut self) {
@@ -276,6 +286,8 @@ pub fn execute(sc: &CountScenario, sh: &Shared) -> Value {
     struct Outer;
     {
     let mut all = || {
+    let mut prepared: Option<(FuncPtr, CallCountVerifier)> = None;
+    let mut prepared_n = 0u64;
     for (li, lt) in sc.lifetimes.iter().enumerate() {
         sh.note(PH_OTHER, li as u64, 0, 0);
         let nstat = match sc.site.as_str() {
@@ -314,13 +326,14 @@ pub fn execute(sc: &CountScenario, sh: &Shared) -> Value {
             }
             n_now = *n_stage;
             nstat.store(n_now, Ordering::SeqCst);
-            let pair = match sc.site.as_str() {
+            let eval = || match sc.site.as_str() {
                 "a" => site_a(),
                 "b" => site_b(),
                 "c" => site_c(),
                 "e" => site_e(),
                 _ => site_d(),
             };
+            let pair = if si == 0 && lt.prepared_ahead && prepared.is_some() { prepared.take().unwrap() } else { eval() };
             if sc.zero_counter {
                 if let CallCountVerifier::WithCount { counter, .. } = &pair.1 {
                     counter.store(0, Ordering::SeqCst);
@@ -354,6 +367,15 @@ pub fn execute(sc: &CountScenario, sh: &Shared) -> Value {
                         }
                     }
                 }
+            }
+            if si == 0 && sc.lifetimes.get(li + 1).map(|n| n.prepared_ahead).unwrap_or(false) {
+                // evaluate the next lifetime's expression now (its `times` is read at evaluation),
+                // then put this lifetime's N back: the fake reads `times` again at every call
+                let next_n = sc.lifetimes[li + 1].n;
+                nstat.store(next_n, Ordering::SeqCst);
+                prepared = Some(eval());
+                nstat.store(n_now, Ordering::SeqCst);
+                prepared_n += 1;
             }
             m = 0;
             for (ci, arg) in calls.iter().enumerate() {
@@ -510,6 +532,7 @@ pub fn execute(sc: &CountScenario, sh: &Shared) -> Value {
             break;
         }
     }
+    prepared_total += prepared_n;
     };
     if sc.in_unwind {
         let r = catch_unwind(AssertUnwindSafe(|| {
@@ -552,6 +575,9 @@ pub fn execute(sc: &CountScenario, sh: &Shared) -> Value {
     }
     if preludes > 0 {
         probes.insert("uncounted_installs_before_the_counted_one".into(), json!(preludes));
+    }
+    if prepared_total > 0 {
+        probes.insert("fake_expression_evaluated_a_lifetime_ahead".into(), json!(prepared_total));
     }
     if refusals > 0 {
         faults.insert("refused_install_with_expectation_pending".into(), json!(refusals));
